@@ -39,6 +39,7 @@ pub fn run(a: &Args) -> Option<Report> {
         "buckets" => Some(run_buckets(a)),
         "matchers" => Some(run_matchers(a)),
         "window" => Some(run_window(a)),
+        "exposed" => Some(run_exposed(a)),
         _ => None,
     }
 }
@@ -209,6 +210,149 @@ fn run_matchers(a: &Args) -> Report {
             rep.violation("C15:wrong-bucket-precedence", jo! {"what" => "global buckets not applied when no override matches", "case" => ctx.clone()});
         }
         if rep.want_sample() && list.len() >= 3 && best.is_some() {
+            rep.sample(ctx);
+        }
+    }
+    rep
+}
+
+/// The same question asked of the rendered exposition: a histogram name is exposed as a Prometheus histogram (TYPE
+/// histogram, `_bucket{le=…}` series for exactly the chosen bounds and +Inf) exactly when buckets apply to it, and as a
+/// summary otherwise — also when the family name carries a unit suffix that the metric name does not.
+fn run_exposed(a: &Args) -> Report {
+    use crate::promparse;
+    use crate::props::c07::{san_name, unit_suffix, UNITS};
+    use metrics::{Key, KeyName, Level, Metadata, Recorder, SharedString};
+    use metrics_exporter_prometheus::PrometheusBuilder;
+    static MD: Metadata<'static> = Metadata::new("c15", Level::INFO, None);
+    let mut rep = Report::new("C15", &a.leg, a.seed);
+    let mut r = Rng::new(a.shard_seed());
+    let n = a.budget(4_000, 400_000);
+    const NAMES: &[&str] = &["a", "ab", "abc", "a_b", "http_request", "http_request_seconds", "lat_ms", "x.y", "req_bytes", "seconds", "é1"];
+    const PATS: &[&str] = &["a", "ab", "http_", "_seconds", "seconds", "_ms", "_bytes", "bytes", "x_y", "http_request", "req", "lat_ms"];
+    for _ in 0..n {
+        let mut list: Vec<(u8, String, f64)> = Vec::new();
+        let mut b = PrometheusBuilder::new();
+        let unit_on = r.chance(1, 2);
+        b = b.set_enable_unit_suffix(unit_on);
+        let name = r.pick(NAMES).to_string();
+        let sname = san_name(&name);
+        for i in 0..r.usize(4) {
+            let cls = r.below(3) as u8;
+            let pat = if r.chance(1, 3) {
+                // aimed at the metric itself: whole name, a head or a tail of it
+                let cs: Vec<char> = sname.chars().collect();
+                let cut = 1 + r.usize(cs.len());
+                match cls {
+                    0 => sname.clone(),
+                    1 => cs[..cut].iter().collect(),
+                    _ => cs[cs.len() - cut..].iter().collect(),
+                }
+            } else {
+                r.pick(PATS).to_string()
+            };
+            if list.iter().any(|(c, p, _)| *c == cls && *p == pat) {
+                continue;
+            }
+            let tag = (i + 1) as f64 * 3.0;
+            let m = match cls {
+                0 => Matcher::Full(pat.clone()),
+                1 => Matcher::Prefix(pat.clone()),
+                _ => Matcher::Suffix(pat.clone()),
+            };
+            b = b.set_buckets_for_metric(m, &[tag, 1000.0]).unwrap();
+            list.push((cls, pat, tag));
+        }
+        let global = r.chance(1, 4);
+        if global {
+            b = b.set_buckets(&[99.0, 1000.0]).unwrap();
+        }
+        let rec = b.build_recorder();
+        let handle = rec.handle();
+        let unit = if r.chance(2, 3) { Some(*r.pick(UNITS)) } else { None };
+        let described = r.chance(3, 4);
+        let before = r.chance(1, 2);
+        if described && before {
+            rec.describe_histogram(KeyName::from(name.clone()), unit, SharedString::from("d"));
+        }
+        let hst = rec.register_histogram(&Key::from_name(name.clone()), &MD);
+        let samples = [0.5, 5.0, 50.0, 5000.0];
+        for v in samples {
+            hst.record(v);
+        }
+        if described && !before {
+            rec.describe_histogram(KeyName::from(name.clone()), unit, SharedString::from("d"));
+        }
+        let text = handle.render();
+        // reference
+        // patterns are sanitised as metric names by the builder (a leading digit becomes '_')
+        let matches = |c: u8, p: &str| {
+            let p = san_name(p);
+            match c {
+                0 => sname == p,
+                1 => sname.starts_with(p.as_str()),
+                _ => sname.ends_with(p.as_str()),
+            }
+        };
+        let mut best: Option<u8> = None;
+        for (c, p, _) in &list {
+            if matches(*c, p) && best.map(|bc| *c < bc).unwrap_or(true) {
+                best = Some(*c);
+            }
+        }
+        let cands: Vec<f64> = best.map(|bc| list.iter().filter(|(c, p, _)| *c == bc && matches(*c, p)).map(|x| x.2).collect()).unwrap_or_default();
+        let exp_hist = best.is_some() || global;
+        let suffix = if unit_on && described { unit.and_then(unit_suffix) } else { None };
+        let fam_name = match suffix {
+            Some(sfx) => format!("{}_{}", sname, sfx),
+            None => sname.clone(),
+        };
+        let mut h = fnv(name.as_bytes());
+        for (c, p, _) in &list {
+            h = mix(h, fnv(p.as_bytes()) ^ *c as u64);
+        }
+        rep.case(mix(mix(h, global as u64), fnv(fam_name.as_bytes())), !list.is_empty() && suffix.is_some());
+        let ctx = jo! {"name" => name.clone(), "unit_suffix_enabled" => unit_on, "unit" => format!("{:?}", unit), "described" => described,
+        "overrides" => J::A(list.iter().map(|(c, p, t)| J::s(format!("{}({:?}) -> [{}, 1000]", ["Full", "Prefix", "Suffix"][*c as usize], p, t))).collect()), "global_buckets" => global, "output" => text.chars().take(500).collect::<String>()};
+        let fams = match promparse::parse(&text).map_err(|e| format!("line {}: {}", e.line_no, e.msg)).and_then(|l| promparse::families(&l)) {
+            Ok(f) => f,
+            Err(e) => {
+                rep.violation("C15:exposition-malformed", jo! {"what" => "the rendering of a single histogram does not parse as well-formed families", "error" => e, "case" => ctx.clone()});
+                continue;
+            }
+        };
+        let fam = match fams.iter().find(|f| f.name == fam_name) {
+            Some(f) => f,
+            None => {
+                rep.violation("C15:family-missing", jo! {"what" => "no family under the expected name", "expected_family" => fam_name, "case" => ctx.clone()});
+                continue;
+            }
+        };
+        let exp_ty = if exp_hist { "histogram" } else { "summary" };
+        let has_bucket = fam.samples.iter().any(|s| s.0.ends_with("_bucket") && s.1.iter().any(|(k, _)| k == "le"));
+        let has_quant = fam.samples.iter().any(|s| s.1.iter().any(|(k, _)| k == "quantile"));
+        if fam.ty != exp_ty || has_bucket != exp_hist || has_quant == exp_hist {
+            rep.violation("C15:wrong-exposed-type", jo! {"what" => "a name is exposed as histogram/summary contrary to whether buckets apply to it (TYPE line and series shape must both agree)", "expected" => exp_ty, "type_line" => fam.ty.clone(), "has_bucket_series" => has_bucket, "has_quantile_series" => has_quant, "case" => ctx.clone()});
+            continue;
+        }
+        if exp_hist {
+            let les: Vec<String> = fam.samples.iter().filter(|s| s.0.ends_with("_bucket")).filter_map(|s| s.1.iter().find(|(k, _)| k == "le").map(|x| x.1.clone())).collect();
+            let first: Option<f64> = les.first().and_then(|x| x.parse().ok());
+            let exp_first: Option<f64> = if best.is_some() { if cands.len() == 1 { Some(cands[0]) } else { None } } else { Some(99.0) };
+            if let Some(ef) = exp_first {
+                if first != Some(ef) || les.len() != 3 || les.last().map(|s| s.as_str()) != Some("+Inf") {
+                    rep.violation("C15:wrong-bucket-precedence", jo! {"what" => "exposed bucket bounds are not those of full > prefix > suffix > global", "expected_bounds" => format!("[{}, 1000, +Inf]", ef), "le_values" => J::A(les.iter().map(|s| J::s(s.clone())).collect()), "case" => ctx.clone()});
+                    continue;
+                }
+                // counts: samples <= b
+                let counts: Vec<f64> = fam.samples.iter().filter(|s| s.0.ends_with("_bucket")).map(|s| s.2).collect();
+                let expc: Vec<f64> = vec![samples.iter().filter(|v| **v <= ef).count() as f64, 3.0, 4.0];
+                if counts != expc {
+                    rep.violation("C15:bucket-count-wrong:exposed", jo! {"what" => "exposed cumulative counts are not the number of samples <= bound", "expected" => format!("{:?}", expc), "got" => format!("{:?}", counts), "case" => ctx.clone()});
+                }
+            }
+        }
+        if rep.want_sample() && !list.is_empty() && suffix.is_some() {
             rep.sample(ctx);
         }
     }
